@@ -612,9 +612,9 @@ func init() {
 	})
 	register(&Prop{
 		ID: "C02", Level: "exploration", Batch: 16, PerCaseTimeout: 70 * time.Second,
-		Rule:  "case i = PRNG(seed,i) 1-4 concurrent plans from the 'conc' profile (2-7 sequences, Concurrency in {unset,1,2,3,n-1,n,n+2}, every action sleeps 1-5 ms; every 10th case starts each plan from 2-6 racing goroutines); non-trivial = some block reached min(Concurrency, #sequences) sequences in flight; distinct by final-status hash",
+		Rule:  "case i = PRNG(seed,i) 1-4 concurrent plans from the 'conc' profile (2-7 sequences, Concurrency in {unset,1,2,3,n-1,n,n+2}, every action sleeps 1-5 ms; every 10th case starts each plan from 2-6 racing goroutines; every 25th case explores every crash point of a plan with more sequences than Concurrency and applies the bound to the process that resumes it); non-trivial = some block reached min(Concurrency, #sequences) sequences in flight; distinct by final-status hash",
 		Cases: nCases(250, 5000),
-		Run: engineRun("C02", concProfile, func(c *eng.Case, run *eng.Run, pr *eng.PlanRun, t *oracle.Trace, res *CaseResult) {
+		Run: everyNth(25, c02Crash, engineRun("C02", concProfile, func(c *eng.Case, run *eng.Run, pr *eng.PlanRun, t *oracle.Trace, res *CaseResult) {
 			r := oracle.C02(pr.Spec, run.Events, pr.ID)
 			res.Viols = append(res.Viols, r.Viols...)
 			res.Counters["blocks_with_sequences"] += r.Blocks
@@ -622,7 +622,7 @@ func init() {
 			for _, m := range r.MaxPerBlk {
 				res.Counters[fmt.Sprintf("max_in_flight_%d", m)]++
 			}
-		}, false),
+		}, false)),
 		RaceAttr:      raceHas("ExecuteSequences"),
 		MinNontrivial: 30,
 		Finish: func(tier string, counters map[string]int, cov map[string]any) string {
